@@ -153,3 +153,92 @@ def run(out):
         r = run_pair(b, code)
         out.append(r)
         log("[C13] %-52s %-12s %6.1fs %s" % (r["harness"], r["status"], r["wall_s"], "; ".join(r.get("notes") or []) or ", ".join(x["label"] for x in r.get("failures", []))))
+
+
+# ------------------------------------------------------------------------------------------------ BorrowedTerm::to_owned on simple shapes
+def _enum_of(path, name):
+    src = open(path).read()
+    m = re.search(r"pub enum %s(?:<[^>]*>)? \{(.*?)\n\}" % name, src, re.S)
+    return {v: i for i, v in enumerate(re.findall(r"^\s{4}(\w+)\s*[\({,]", m.group(1), re.M))}
+
+
+def run_to_owned(out):
+    """to_owned keeps the variant, the element count and the integers of Nil / Integer / List(0..2) / Tuple(0..2) (nested one level)"""
+    from ..e1 import REPO, WORK
+    from mir_smt import mir
+    t0 = time.time()
+    name = "c13_to_owned_keeps_shape"
+    try:
+        text = open(os.path.join(WORK, "mir", "erltf.mir")).read()
+        fns = {f.name: f for f in mir.parse_functions(text, r"^fn borrowed::<impl at [^>]*>::to_owned\(_1: &BorrowedTerm<'_>\) -> OwnedTerm")}
+        if len(fns) != 1:
+            raise mir.MirError("to_owned not found (%d)" % len(fns))
+        fn = list(fns.values())[0]
+        eo = _enum_of(os.path.join(REPO, "crates", "erltf", "src", "term.rs"), "OwnedTerm")
+        eb = _enum_of(os.path.join(REPO, "crates", "erltf", "src", "borrowed.rs"), "BorrowedTerm")
+    except Exception as e:
+        out.append(c02_caps._rec(name, "INCONCLUSIVE", time.time() - t0, notes=["cannot load: %s" % e]))
+        return
+    sol = heapex.Solver(timeout_s=60)
+    failures, nshapes = [], 0
+    try:
+        sol.declare("hx_probe", "(_ BitVec 64)")
+        for i in range(4):
+            sol.declare("in_i%d" % i, "(_ BitVec 64)")
+        it = heapex.Interp(fns, symex.parse_consts(text), sol, lambda c: fn if re.search(r"BorrowedTerm(::<'_>)?::to_owned$", c) else None, max_alloc=6)
+        it.enums = {"OwnedTerm": eo, "BorrowedTerm": eb}
+        B = lambda v, *f: heapex.mk_enum("BorrowedTerm", v, eb[v], list(f))
+        I = lambda k: B("Integer", BV(64, "in_i%d" % k))
+        shapes = {"nil": B("Nil"), "int": I(0)}
+        for kind in ("List", "Tuple"):
+            for n in range(3):
+                shapes["%s%d" % (kind.lower(), n)] = B(kind, Val("vec", items=[I(k) for k in range(n)]))
+            shapes["%s_of_empty_%s" % (kind.lower(), kind.lower())] = B(kind, Val("vec", items=[B(kind, Val("vec", items=[])), I(0)]))
+
+        def same(b, o):
+            if b.vname != o.vname:
+                return "%s became %s" % (b.vname, o.vname)
+            if b.vname == "Integer":
+                return None if b.fields[0].s == o.fields[0].s else "integer changed"
+            if b.vname in ("List", "Tuple"):
+                bi, oi = b.fields[0].items, o.fields[0].items
+                if len(bi) != len(oi):
+                    return "%d elements became %d" % (len(bi), len(oi))
+                for x, y in zip(bi, oi):
+                    w = same(x, y)
+                    if w:
+                        return w
+            return None
+        for sname, term in shapes.items():
+            nshapes += 1
+            it.reset([])
+            cell = [heapex.clone_val(term)]
+            r = it.call_fn(fn, [Val("ref", lst=cell, idx=0)])
+            if it.pending:
+                raise symex.Unsupported("to_owned branches on a symbolic value")
+            why = same(term, r) if r.kind == "enum" else "result is %s" % r.kind
+            if why:
+                ok, rr = replay_to_owned(sname)
+                failures.append({"kind": "assert", "label": "L:to_owned_changes_the_term", "prop": name, "function": fn.name, "desc": "to_owned of %s: %s" % (sname, why),
+                                 "values": [sname], "replayed": ok, "replay_result": rr, "e2": {"to_owned_shape": sname}})
+                break
+        sample = {"function": fn.name, "shapes": sorted(shapes), "query": "structural: variant, element count and integer expressions of the result equal the input's"}
+        out.append(c02_caps._rec(name, "FAIL" if failures else "PASS", time.time() - t0, failures=failures, sample=sample, queries=nshapes, paths=nshapes))
+    except (symex.Unsupported, AttributeError, KeyError, TypeError, IndexError) as e:
+        out.append(c02_caps._rec(name, "INCONCLUSIVE", time.time() - t0, notes=["cannot encode: %s" % e]))
+    finally:
+        sol.close()
+    r = out[-1]
+    log("[C13] %-52s %-12s %6.1fs %s" % (r["harness"], r["status"], r["wall_s"], "; ".join(r.get("notes") or []) or ", ".join(x["desc"] for x in r.get("failures", []))))
+
+
+def replay_to_owned(shape):
+    from . import c16_replay
+    b = c16_replay._binary()
+    if b is None:
+        return False, {"dev": (-1, "replay build failed")}
+    try:
+        p = subprocess.run([b, "toowned", shape], stdout=subprocess.PIPE, stderr=subprocess.STDOUT, text=True, timeout=60)
+    except subprocess.TimeoutExpired:
+        return False, {"dev": (-2, "timeout")}
+    return p.returncode == 101, {"dev": (p.returncode, p.stdout[-300:])}
